@@ -939,6 +939,19 @@ def _rangeinc_next(eng, m, args, fr, dty):
     return NONE()
 
 
+@model(r'^(std::ops::)?RangeInclusive::<(\w+)>::contains::<.*>$|^(std::ops::)?Range::<(\w+)>::contains::<.*>$')
+def _range_contains(eng, m, args, fr, dty):
+    r = eng.deref(args[0], fr)
+    x = eng.deref(args[1], fr)
+    lo, hi = r.fields[0], r.fields[1]
+    ge = z3.UGE(x.e, lo.e) if not x.signed else (x.e >= lo.e)
+    if 'RangeInclusive' in m.group(0):
+        le = z3.ULE(x.e, hi.e) if not x.signed else (x.e <= hi.e)
+    else:
+        le = z3.ULT(x.e, hi.e) if not x.signed else (x.e < hi.e)
+    return Bool(z3.And(ge, le))
+
+
 # ---------------------------------------------------------------- decimal text <-> BigInt
 def _dec_key(items):
     return tuple(b.e.get_id() for b in items)
